@@ -361,7 +361,7 @@ namespace sched
     }
     Result run()
     {
-        int cur = -1, preempt = 0, steps = 0, nchoice = 0;
+        int cur = -1, preempt = 0, steps = 0, nchoice = 0, spurious = 0;
         uint64_t h = 1469598103934665603ull;
         bool decided = G.opt.nshard <= 1, drain = false;
         std::string trace;
@@ -396,6 +396,14 @@ namespace sched
                 break;
             }
             int n = (cur_en && preempt >= G.opt.preemption_bound) ? 1 : (int)en.size();
+            // environment deviation: a thread parked in a condition wait may be woken spuriously
+            std::vector<int> spur;
+            if (spurious < G.opt.spurious_bound && !drain)
+                for (Thread *t : G.threads)
+                    if (!t->done && t->kind == K_CREACQ && !t->signalled)
+                        spur.push_back(t->id);
+            int nthreads_alt = n;
+            n += (int)spur.size();
             int k = 0;
             if (n > 1 && !drain)
             {
@@ -411,6 +419,22 @@ namespace sched
                         G.res.skipped = true;
                     }
                 }
+            }
+            if (k >= nthreads_alt)
+            { // spurious wake-up of spur[k - nthreads_alt]: it leaves the wait set and will re-acquire the mutex
+                Thread *sp = G.threads[spur[k - nthreads_alt]];
+                Cond &cc = G.conds[sp->obj];
+                for (size_t q = 0; q < cc.waiters.size(); q++)
+                    if (cc.waiters[q] == sp->id)
+                    {
+                        cc.waiters.erase(cc.waiters.begin() + q);
+                        break;
+                    }
+                sp->signalled = true;
+                spurious++;
+                if (trace.size() < 3000)
+                    trace += mc::fmt("env:spurious_wakeup(t%d) ", sp->id);
+                continue;
             }
             Thread *t = G.threads[en[k]];
             if (cur_en && t->id != cur)
@@ -428,6 +452,7 @@ namespace sched
             G.res.skipped = (int)((h >> 17) % (uint64_t)G.opt.nshard) != G.opt.shard;
         G.res.steps = steps;
         G.res.preemptions = preempt;
+        G.res.spurious = spurious;
         G.res.choice_points = nchoice;
         G.res.trace = trace;
         bool all = true;
